@@ -226,6 +226,7 @@ def run(ctx):
     scope_struct_type_is_nullable(ctx)
     typedefs_peeled_before_taking_apart(ctx)
     error_branches_of_actions_leave_a_value(ctx)
+    class_hierarchy_is_acyclic(ctx)
     containment_recursion(ctx)
     construction_stacks(ctx)
     lexer_restore_order(ctx)
@@ -1658,3 +1659,174 @@ def error_branches_of_actions_leave_a_value(ctx):
                 ctx.ob("R15.23", "%s|%s|error-branch-leaves-a-value" % (nt, "_".join(syms)[:50]), ok, "src/cppparser/cppBison.yxx:%d" % a.line,
                        "asserted impossible" if believed else ("assigns $$ after the error" if ok else "reports the error and leaves $$ null"))
     ctx.floor("R15.23", "null-result error branches in grammar actions", n, 8)
+
+
+DERIVATION_WRITERS = {
+    "CPPStructType::append_derivation": "the grammar's entry point (judged below)",
+    "CPPStructType::CPPStructType": "copy constructor: copies an existing class's list",
+    "CPPStructType::operator=": "copies an existing class's list",
+    "CPPStructType::substitute_decl": "template instantiation: the bases of an existing class with the template arguments put in (NOT judged: a cycle "
+                                      "through instantiation is outside this rule)",
+    "CPPScope::copy_substitute_decl": "template instantiation, as above",
+}
+
+
+def class_hierarchy_is_acyclic(ctx):
+    """R15.24: CPPScope::find_symbol/find_type, CPPStructType::check_virtual/is_base_of/..., the builder and the makers
+    (get_valid_child_classes, DoesInheritFromIsClass, ...) all walk `_derivation` recursively with no visited set - and
+    follow forward declarations BY NAME (resolve_type).  They end only if no base clause leads back to the class it
+    belongs to.  The grammar is the one place where a name becomes a base, so it is there that the cycle is refused:
+    (F-C15u: `struct A : A {};`, `struct B; struct A : B {}; struct B : A {};` SIGSEGV.)"""
+    db = ctx.db
+    ctx.rule("R15.24", "only the frozen writers touch CPPStructType::_derivation; append_derivation is called only from the generated parser; the value of "
+                       "class_derivation_name, when it comes from a name lookup, is assigned only where the cycle predicate answered false (or the value was "
+                       "nulled); the predicate compares with current_struct, re-resolves names, peels typedefs, recurses over _derivation and cannot cycle")
+    # (a) writers of _derivation
+    n_w = 0
+    for f in db.functions:
+        if not any(d in f.file for d in ("/cppparser/", "/interrogate", "cppBison")):
+            continue
+        for c in f.walk():
+            w = None
+            if c.get("k") == "call" and callee_short(c) in ("push_back", "emplace_back", "insert", "erase", "clear", "resize", "pop_back", "swap", "assign") and "this" in c:
+                if (field_of(strip_casts(peel(c["this"]))) or "") == "CPPStructType::_derivation":
+                    w = c
+            t = assigned_target(c)
+            if t:
+                tgt = strip_casts(peel(t[0]))
+                for y in walk(tgt):
+                    if y.get("k") == "mem" and y.get("n") == "CPPStructType::_derivation":
+                        w = c
+            if w is not None:
+                n_w += 1
+                ctx.ob("R15.24", "%s|writes-_derivation" % f.name, f.name in DERIVATION_WRITERS, f.loc(w),
+                       DERIVATION_WRITERS.get(f.name, "a writer of the base-class list that is not in the frozen table"))
+        for ini in f.d.get("inits", []):
+            if ini.get("m") == "CPPStructType::_derivation" and ini.get("written"):
+                n_w += 1
+                ctx.ob("R15.24", "%s|writes-_derivation" % f.name, f.name in DERIVATION_WRITERS, f.loc(),
+                       DERIVATION_WRITERS.get(f.name, "a writer of the base-class list that is not in the frozen table"))
+    ctx.floor("R15.24", "writers of CPPStructType::_derivation", n_w, 4)
+    # (b) callers of append_derivation
+    fs = [f for f in db.functions if f.file.endswith("cppBison.cxx") and f.name.endswith("yyparse")]
+    if not fs:
+        ctx.broken("R15.24: generated parser not found")
+        return
+    yy = fs[0]
+    n_c = 0
+    for f in db.functions:
+        for c in f.calls("CPPStructType::append_derivation"):
+            n_c += 1
+            a = strip_casts(peel(c["a"][0])) if c.get("a") else None
+            from_stack = a is not None and a.get("k") == "mem" and (a.get("n") or "").endswith("::type") and "yyvsp" in show(a)
+            ctx.ob("R15.24", "%s|append_derivation(%s)|value-of-class_derivation_name" % (f.name, _norm(show(a)) if a else "?"), f is yy and from_stack,
+                   f.loc(c), "the base handed over is the value of a class_derivation_name on the parser's stack" if (f is yy and from_stack)
+                   else "append_derivation() called with something that did not pass through the grammar's cycle test")
+    ctx.floor("R15.24", "calls of append_derivation", n_c, 11)
+    # (c) the cycle predicate(s): functions of the parser that compare with current_struct and read _derivation
+    preds = []
+    for f in db.functions:
+        if not f.file.endswith("cppBison.cxx") or f is yy:
+            continue
+        cmp_node = None
+        for y in f.walk():
+            ca = G.cmp_atom(y) if y.get("k") == "bin" else None
+            if ca and ca[0] == "==" and any((strip_casts(peel(z)) or {}).get("k") == "ref" and strip_casts(peel(z)).get("n") == "current_struct" for z in ca[1:] if z is not None):
+                cmp_node = y
+        reads = any(y.get("k") == "mem" and y.get("n") == "CPPStructType::_derivation" for y in f.walk())
+        if cmp_node is not None and reads:
+            preds.append((f, cmp_node))
+    ctx.floor("R15.24", "cycle predicates in the parser", len(preds), 1)
+    for f, cmp_node in preds:
+        short = f.name.split("::")[-1]
+        # returns true exactly on the == edge
+        eq = G.edges_where(f, lambda atom, truth: truth and atom is cmp_node or (G.cmp_atom(atom) is not None and atom.get("i") == cmp_node.get("i") and truth))
+        rt = [r for r in f.walk() if r.get("k") == "ret" and const_int(r.get("e")) == 1]
+        ok = bool(eq) and any(G.gated(f, r, eq) for r in rt)
+        ctx.ob("R15.24", "%s|true-on-current_struct" % short, ok, f.loc(cmp_node), "returns true where the type IS the class being defined")
+        rec = [c for c in f.walk() if c.get("k") == "call" and c.get("f") == f.name]
+        rec_base = [c for c in rec if c.get("a") and any(y.get("k") == "mem" and (y.get("n") or "").endswith("Base::_base") for y in walk(c["a"][0]))]
+        in_loop = [c for c in rec_base if any(lp.get("k") in ("for", "rfor", "while") and any(y.get("k") == "mem" and y.get("n") == "CPPStructType::_derivation" for y in walk(lp)) for lp in enclosing_loops(f, c))]
+        prop = False
+        for c in in_loop:
+            e = G.edges_where(f, lambda atom, truth, c=c: truth and (strip_casts(peel(atom)) or {}).get("i") == c.get("i"))
+            prop = prop or (bool(e) and any(G.gated(f, r, e) for r in rt))
+        ctx.ob("R15.24", "%s|recurses-over-bases" % short, bool(in_loop) and prop, f.loc(in_loop[0]) if in_loop else f.loc(),
+               "asks the same question of every base of a class and answers true when one of them does")
+        res = [c for c in f.walk() if c.get("k") == "call" and callee_short(c) == "resolve_type"]
+        ctx.ob("R15.24", "%s|looks-names-up-again" % short, bool(res), f.loc(res[0]) if res else f.loc(),
+               "forward declarations and names unknown at the time are resolved again (they may name the class being defined)")
+        tdp = [y for y in f.walk() if y.get("k") == "mem" and y.get("n") == "CPPTypedefType::_type"]
+        ctx.ob("R15.24", "%s|peels-typedefs" % short, bool(tdp), f.loc(tdp[0]) if tdp else f.loc(), "a typedef of the class is the class")
+        # cannot cycle itself: recursion and the loop body sit behind insert(...).second of a visited set
+        ins = G.edges_where(f, lambda atom, truth: truth and (strip_casts(peel(atom)) or {}).get("k") == "mem" and (strip_casts(peel(atom)).get("n") or "").endswith("pair::second")
+                            and any(y.get("k") == "call" and callee_short(y) == "insert" for y in walk(strip_casts(peel(atom)))))
+        ok = bool(ins) and all(G.gated(f, c, ins) for c in rec + res)
+        ctx.ob("R15.24", "%s|visited-set" % short, ok, f.loc(), "every resolve step and every recursive call is behind `visited.insert(type).second`")
+    pred_names = {f.name for f, _ in preds}
+    # (d) the actions of class_derivation_name
+    cases = {k: v for k, v in db.meta.get("bison_cases", {}).items() if v[0] == "class_derivation_name"}
+    if not cases:
+        ctx.broken("R15.24: no class_derivation_name actions in the generated parser")
+        return
+    n_named = 0
+    for cs in yy.walk():
+        if cs.get("k") != "case" or cs.get("v") not in cases:
+            continue
+        rhs = cases[cs["v"]][1]
+        sub = list(walk(cs.get("sub") or {}))
+        named = any(y.get("k") == "call" and callee_short(y) in ("find_type", "find_symbol", "find_template", "find_scope") for y in sub) or \
+            any(y.get("k") == "new" and y.get("ty") == "CPPTBDType" for y in sub)
+        if not named:
+            ctx.ob("R15.24", "class_derivation_name:%s|not-from-a-name" % rhs.replace(" ", "_"), True, "src/cppparser/cppBison.yxx (case %d)" % cs["v"],
+                   "the value is not the result of a name lookup (a template parameter pack)")
+            continue
+        n_named += 1
+        outs = []
+        for y in sub:
+            t = assigned_target(y)
+            if t and "yyval" in show(t[0]) and (field_of(strip_casts(peel(t[0]))) or "").endswith("::type"):
+                outs.append((y, t[1]))
+        ok = bool(outs)
+        why = "no assignment to $$ found"
+        for y, val in outs:
+            v = strip_casts(peel(val))
+            if v is not None and v.get("k") == "nullp":
+                continue
+            r = local_ref(v)
+            if r is None:
+                ok, why = False, "$$ is assigned a looked-up type directly, with no cycle test in between"
+                break
+            d = r["d"]
+            def is_pred_call(n, d=d):
+                n = strip_casts(peel(n)) if n is not None else None
+                return n is not None and n.get("k") == "call" and n.get("f") in pred_names and n.get("a") and (local_ref(n["a"][0]) or {}).get("d") == d
+            # the answer may be kept in a local that is initialised with the call and never assigned again
+            kept = set()
+            for z in sub:
+                if z.get("k") == "decls":
+                    for dd in z["d"]:
+                        if dd.get("ct") == "bool" and is_pred_call(dd.get("init")) and \
+                           not any((local_ref((assigned_target(w) or (None,))[0]) or {}).get("d") == dd["d"] for w in sub):
+                            kept.add(dd["d"])
+            false_edges = G.edges_where(yy, lambda atom, truth: (not truth) and (is_pred_call(atom) or (local_ref(atom) or {}).get("d") in kept))
+            nulled = set()
+            for z in sub:
+                tz = assigned_target(z)
+                if tz and (local_ref(tz[0]) or {}).get("d") == d and (strip_casts(peel(tz[1])) or {}).get("k") == "nullp":
+                    lz = yy.cfg.locate(z)
+                    if lz is not None:
+                        nulled.add(lz)
+            la = yy.cfg.locate(y)
+            if la is None or not false_edges:
+                ok, why = False, "no call of the cycle predicate on `%s` decides this assignment" % r.get("n")
+                break
+            cut_blocks = {b for b, i in nulled if not (b == la[0] and i > la[1])}
+            if la[0] in cut_blocks:
+                continue
+            if la[0] in yy.cfg.reachable(cut_edges=false_edges, cut_blocks=cut_blocks):
+                ok, why = False, "`$$ = %s` can be reached with the predicate true and `%s` not nulled" % (r.get("n"), r.get("n"))
+                break
+            why = "`$$ = %s` only where %s(%s, ...) was false, or %s was set to nullptr" % (r.get("n"), sorted(pred_names)[0].split("::")[-1], r.get("n"), r.get("n"))
+        ctx.ob("R15.24", "class_derivation_name:%s|cycle-refused" % rhs.replace(" ", "_"), ok, "src/cppparser/cppBison.yxx (case %d)" % cs["v"], why)
+    ctx.floor("R15.24", "class_derivation_name actions that take their value from a name", n_named, 2)
